@@ -177,7 +177,13 @@ class CaptureTwistedLogs(Fixture):
         self.useFixture(_TwistedLogObservers([full_observer.emit]))
         self.addDetail(
             self.LOG_DETAIL_NAME,
-            Content(UTF8_TEXT, lambda: [logs.getvalue().encode("utf-8")]),
+            # A logged message may hold lone surrogates (an os.fsdecode()d file
+            # name, say), which strict UTF-8 cannot encode: show them escaped
+            # rather than fail while the outcome is being reported.
+            Content(
+                UTF8_TEXT,
+                lambda: [logs.getvalue().encode("utf-8", "backslashreplace")],
+            ),
         )
 
 
